@@ -38,51 +38,57 @@ func runCase(t *testing.T, rt *rapid.T, rec *simkit.Recorder, prof *profile) {
 	var failure string
 	var aborted string
 	var rapidPanic any
-	synctest.Test(t, func(st *testing.T) {
+	func() {
 		defer func() {
-			r := recover()
-			if w != nil {
-				// Let every parked request go so that the bubble can end.
-				for _, fl := range w.flights {
-					if fl.ctl.where() != "" {
-						func() {
-							defer func() { recover() }()
-							close(fl.ctl.release)
-						}()
+			if r := recover(); r != nil {
+				if strings.Contains(fmt.Sprint(r), "deadlock: main bubble goroutine has exited") {
+					// A request of the case never returned although
+					// everything the harness parked was released.
+					if failure == "" && aborted == "" {
+						failure = fmt.Sprintf("[%s] liveness: %v", prof.property, r)
 					}
+					return
 				}
-				synctest.Wait()
-			}
-			if r == nil {
-				return
-			}
-			switch v := r.(type) {
-			case violation:
-				if v.class == prof.property {
-					failure = fmt.Sprintf("[%s] %s", v.class, v.msg)
-				} else {
-					aborted = v.class
-				}
-			default:
-				if strings.Contains(fmt.Sprintf("%T", r), "rapid.") {
-					rapidPanic = r
-				} else {
-					failure = fmt.Sprintf("panic in the code under test or the harness: %v\n%s", r, debug.Stack())
-				}
+				panic(r)
 			}
 		}()
-		w = newWorld(rt, prof, nClients)
-		w.warmup()
-		n := rapid.IntRange(prof.minSteps, prof.maxSteps).Draw(rt, "steps")
-		for i := 0; i < n; i++ {
-			w.step()
-		}
-		w.evMain = map[string]int{}
-		for k, v := range w.m.ev {
-			w.evMain[k] = v
-		}
-		w.finish()
-	})
+		runBubble(t, func() {
+			defer func() {
+				r := recover()
+				if w != nil {
+					w.unparkAll()
+				}
+				if r == nil {
+					return
+				}
+				switch v := r.(type) {
+				case violation:
+					if v.class == prof.property {
+						failure = fmt.Sprintf("[%s] %s", v.class, v.msg)
+					} else {
+						aborted = v.class
+					}
+				default:
+					if strings.Contains(fmt.Sprintf("%T", r), "rapid.") {
+						rapidPanic = r
+					} else {
+						failure = fmt.Sprintf("panic in the code under test or the harness: %v\n%s", r, debug.Stack())
+					}
+				}
+			}()
+			w = newWorld(rt, prof, nClients)
+			w.warmup()
+			n := rapid.IntRange(prof.minSteps, prof.maxSteps).Draw(rt, "steps")
+			for i := 0; i < n; i++ {
+				w.step()
+			}
+			w.evMain = map[string]int{}
+			for k, v := range w.m.ev {
+				w.evMain[k] = v
+			}
+			w.finish()
+		})
+	}()
 	if rapidPanic != nil {
 		panic(rapidPanic)
 	}
@@ -182,7 +188,7 @@ var profC20 = &profile{
 		kRead: 1, kWrite: 1, kOpenDowngrade: 1,
 		kSetclientid: 1, kSetclientidConfirm: 1, kRenew: 1, "advance": 2, "release": 2, "retx": 1,
 	}),
-	minSteps: 20, maxSteps: 70, devPct: 8, parkPct: 5, warmPct: 95, warmOpen: true, confirmPct: 95,
+	minSteps: 20, maxSteps: 70, devPct: 8, parkPct: 5, warmPct: 95, warmOpen: true, confirmPct: 95, sharedLO: true,
 	nontrivial: func(ev, labels map[string]int) bool {
 		return ev["two_lock_owners_hold"] > 0 && ev["lock_split_or_merge"] > 0 && ev["lock_to_max_offset"] > 0
 	},
@@ -201,4 +207,8 @@ func TestC19NFS40Retransmission(t *testing.T) {
 func TestC20NFS40ByteRangeLocks(t *testing.T) {
 	rec := simkit.NewRecorder(t, "C20", "nfs40_locks", commonRule+"ORACLE (C20b): per-file per-byte lock table keyed by (client registration, lock-owner bytes) over a 33-unit compressed offset universe (bytes 0..15, gap, 16 highest offsets, ranges to 2^64-1 and length all-ones): LOCK granted <=> the model has no conflict; a DENIED reply names an owner/type/range that the model says is really held, overlaps and conflicts; LOCKT DENIED <=> the same LOCK would be denied (own locks never conflict, unknown owners conflict with everyone, unopened files never conflict); LOCKU frees exactly the bytes; CLOSE / RELEASE_LOCKOWNER / lease expiry / re-registration free exactly that open's / owner's / client's bytes; RELEASE_LOCKOWNER => NFS4ERR_LOCKS_HELD <=> the owner still holds bytes; lock state IDs and seqids as predicted. NON-TRIVIAL: two owners held locks on one file at the same time AND a split or merge of an owner's ranges happened AND a range ended at the maximum offset. Distinct by script hash.")
 	rapid.Check(t, func(rt *rapid.T) { runCase(t, rt, rec, profC20) })
+}
+
+func runBubble(t *testing.T, body func()) {
+	synctest.Test(t, func(st *testing.T) { body() })
 }
